@@ -28,9 +28,8 @@ namespace Spec
 
 /-- `CONSUME(n)` on data -/
 def consumeD (text : Bytes) (d : Data) (n : Nat) : Data :=
-  let v := readAt text d.pos n
-  let (l, k) := advance d.line d.col v
-  { d with cur := d.cur ++ v, pos := d.pos + v.length, line := l, col := k }
+  { d with cur := d.cur ++ readAt text d.pos n, pos := d.pos + (readAt text d.pos n).length,
+           line := (advance d.line d.col (readAt text d.pos n)).1, col := (advance d.line d.col (readAt text d.pos n)).2 }
 
 /-- zero-width test: succeed unchanged iff `cond ≠ neg` -/
 def anchorD (d : Data) (cond neg : Bool) : Option Data := if cond != neg then some d else none
